@@ -39,6 +39,7 @@ func runC05(r *Report, p *Program) {
 	bodyReplayRule(h, "R7")
 	c05R8(h)
 	c05R9(h)
+	c05R10(h)
 }
 
 func selectFuncs(h H, rule string) []*ssa.Function {
